@@ -73,6 +73,15 @@ func Spec_inflectorOK(i *Inflector) bool {
 	return i != nil && spec_all(func(t RuleType) bool { return !spec_has(i.rules, t) || (i.rules[t] != nil && spec_wellFormed(i.rules[t])) })
 }
 
+//@ func Inflector.Register
+//@   props C20
+//@   requires i != nil && r != nil
+//@   requires (forall k int :: 0 <= k && k < len(r.Irregular) ==> r.Irregular[k] != nil) && (forall k int :: 0 <= k && k < len(r.Rules) ==> r.Rules[k] != nil)
+//@   assigns i.rules, r.uninflected, r.compiledUninflected, r.irregularMap, r.compiledIrregular, r.compiledRules
+//@   ensures result == nil ==> has(i.rules, r.Type) && i.rules[r.Type] == r
+//@   ensures forall t RuleType :: t != r.Type ==> has(i.rules, t) == old(has(i.rules, t)) && i.rules[t] == old(i.rules[t])
+//@   note frame: registering a rule builds its lookup tables (Init) and files it under its type - the rule's own word lists (Irregular, Uninflected, Rules) are left EXACTLY as given: no irregular word is dropped as "redundant" (the regular rules only see whole strings, so only the irregular table inflects a word that follows a prefix - C20)
+
 //@ func Inflector.Inflected
 //@   props C20
 //@   pure
